@@ -4,7 +4,8 @@ from .regions import Regions
 
 UNIT = "asmjit/arm/a64assembler.cpp"
 DBUNIT = "asmjit/arm/a64instdb.cpp"
-FUNCS = r"a64::Assembler::_emit$|a64::check_[A-Za-z0-9_]+$|a64::match_[A-Za-z0-9_]+$"
+# _emit plus every free function of namespace a64 (the static helpers of the unit; filtered by file below)
+FUNCS = r"a64::Assembler::_emit$|asmjit::a64::[a-z_0-9]+$"
 
 
 def load(chk):
@@ -16,7 +17,7 @@ def load(chk):
         fn = cfg.Fn(fo)
         if fn.name == "asmjit::a64::Assembler::_emit":
             emit = fn
-        else:
+        elif fn.file.endswith("/" + UNIT.split("/")[-1]):
             helpers["%s/%d" % (fn.name, len(fn.params))] = fn
     chk.need(emit is not None, "a64::Assembler::_emit not found in %s" % UNIT)
     summaries = vbe.close_summaries(helpers)
@@ -34,7 +35,7 @@ def rule_vbe(chk, A, clause):
                    "paths before emit32u_le; validators = callees whose body compares the parameter's id")
     r = vbe.analyse(emit, summaries)
     nvalidators = sum(1 for s in summaries.values() if s)
-    chk.floor(rule + ":validators", nvalidators, 10)
+    chk.floor(rule + ":validators", nvalidators, 5)
     chk.floor(rule + ":validator-calls", r["stats"]["validator_calls"], 60)
     chk.floor(rule + ":emit-events", r["stats"]["emits"], 1)
     ordinals = {}
